@@ -560,7 +560,8 @@ class CallMixin(object):
     def call_class(self, st, cls, args, kwargs, fr):
         if issubclass(cls, BaseException):
             return [(st, mk(ExcVal(cls, args)))]
-        if cls in (list, tuple, set, frozenset, str, int, dict, bool):
+        import itertools as _it
+        if cls in (list, tuple, set, frozenset, str, int, dict, bool, reversed, enumerate, range, _it.takewhile):
             return self.call_builtin(st, cls, args, kwargs, fr)
         name = cls.__name__
         ckey = '%s:%s' % (cls.__module__, cls.__qualname__)
